@@ -8,6 +8,17 @@
 // two functions (Jmes/Slice.lean), which stays tied to the code by the exhaustive slice
 // window of the correspondence harness; the evidence file records which tie was in force.
 //
+// The function `slice` (the two loops) is translated by PATTERN: its body must be, up to the names of
+// the variables, `c, err := computeSliceParams(len(s), parts); if err != nil { return nil, err };
+// a, b, st := c[0], c[1], c[2]; r := []interface{}{}; if <test> { <loop> } else { <loop> }; return r, nil`
+// with each <loop> of the form `for i := a; <cond>; <post> { r = append(r, s[<index>]); if <guard> { break } }`.
+// <test>, <cond>, <guard> (boolean), <index> (integer) and <post> (an assignment to i) are translated
+// as ordinary expressions of the subset, so a changed comparison, index or increment is translated
+// faithfully; the loop itself becomes structural recursion on a fuel argument (exhaustion = "does not
+// terminate") that returns the appended elements in iteration order, `s[e]` outside the list is Go's
+// index panic.  Any other shape of `slice` is refused for the loops only: the output then carries the
+// hand-written loops (`loopsTranslated := false`) and the arithmetic is still the translated one.
+//
 // Subset (statements): `var a, b T` (zero values), `x := e`, `x = e`, `x += e`, `x -= e`,
 // `if c { … } else if … else { … }` (no init statement), `return e…`.
 // Subset (expressions): identifiers, integer literals, `true`/`false`, `nil`, unary `-` `!`,
@@ -36,7 +47,14 @@ import (
 	"strings"
 )
 
+type refusal string
+
+var softMode *bool
+
 func die(what, format string, a ...interface{}) {
+	if softMode != nil && *softMode {
+		panic(refusal(what + ": " + fmt.Sprintf(format, a...)))
+	}
 	fmt.Fprintf(os.Stderr, "gotolean: cannot translate %s: %s\n", what, fmt.Sprintf(format, a...))
 	os.Exit(3)
 }
@@ -60,6 +78,7 @@ type fn struct {
 }
 
 type tr struct {
+	soft   bool
 	fns    map[string]*fn
 	fields map[string]kind // fields of sliceParam
 	cur    *fn
@@ -371,6 +390,245 @@ func (t *tr) stmts(list []ast.Stmt, rest [][]ast.Stmt, env map[string]kind, ind 
 	return ""
 }
 
+
+// ---- the pattern translation of `slice` ----
+
+type loopPieces struct{ cond, idx, guard, post string }
+
+func (t *tr) tryLoops(file *ast.File) (out string, why string) {
+	defer func() {
+		if r := recover(); r != nil {
+			if m, ok := r.(refusal); ok {
+				out, why = "", string(m)
+				return
+			}
+			panic(r)
+		}
+	}()
+	var fd *ast.FuncDecl
+	for _, d := range file.Decls {
+		if f, ok := d.(*ast.FuncDecl); ok && f.Name.Name == "slice" && f.Recv == nil {
+			fd = f
+		}
+	}
+	no := func(format string, a ...interface{}) { panic(refusal(fmt.Sprintf(format, a...))) }
+	if fd == nil {
+		no("function slice not found")
+	}
+	t.cur = &fn{name: "slice"}
+	t.soft = true
+	defer func() { t.soft = false }()
+	ps := fd.Type.Params.List
+	var names []string
+	for _, p := range ps {
+		for _, n := range p.Names {
+			names = append(names, n.Name)
+		}
+	}
+	if len(names) != 2 {
+		no("slice: expected two parameters")
+	}
+	sName, pName := names[0], names[1]
+	st := fd.Body.List
+	if len(st) != 6 {
+		no("slice: expected six statements, found %d", len(st))
+	}
+	ident := func(e ast.Expr) string {
+		id, ok := e.(*ast.Ident)
+		if !ok {
+			no("slice: expected an identifier")
+		}
+		return id.Name
+	}
+	// 1. c, err := computeSliceParams(len(s), parts)
+	a1, ok := st[0].(*ast.AssignStmt)
+	if !ok || a1.Tok != token.DEFINE || len(a1.Lhs) != 2 || len(a1.Rhs) != 1 {
+		no("slice: statement 1 is not `c, err := computeSliceParams(len(s), parts)`")
+	}
+	cName, errName := ident(a1.Lhs[0]), ident(a1.Lhs[1])
+	call, ok := a1.Rhs[0].(*ast.CallExpr)
+	if !ok || len(call.Args) != 2 {
+		no("slice: statement 1 is not a call of computeSliceParams")
+	}
+	if id, ok := call.Fun.(*ast.Ident); !ok || id.Name != "computeSliceParams" {
+		no("slice: statement 1 does not call computeSliceParams")
+	}
+	lenCall, ok := call.Args[0].(*ast.CallExpr)
+	if !ok || len(lenCall.Args) != 1 || ident(lenCall.Fun) != "len" || ident(lenCall.Args[0]) != sName || ident(call.Args[1]) != pName {
+		no("slice: computeSliceParams is not called with (len(%s), %s)", sName, pName)
+	}
+	// 2. if err != nil { return nil, err }
+	i2, ok := st[1].(*ast.IfStmt)
+	if !ok || i2.Init != nil || i2.Else != nil || len(i2.Body.List) != 1 {
+		no("slice: statement 2 is not `if err != nil { return nil, err }`")
+	}
+	be, ok := i2.Cond.(*ast.BinaryExpr)
+	if !ok || be.Op != token.NEQ || ident(be.X) != errName || ident(be.Y) != "nil" {
+		no("slice: statement 2 does not test err != nil")
+	}
+	r2, ok := i2.Body.List[0].(*ast.ReturnStmt)
+	if !ok || len(r2.Results) != 2 || ident(r2.Results[0]) != "nil" || ident(r2.Results[1]) != errName {
+		no("slice: statement 2 does not return nil, err")
+	}
+	// 3. a, b, st := c[0], c[1], c[2]
+	a3, ok := st[2].(*ast.AssignStmt)
+	if !ok || a3.Tok != token.DEFINE || len(a3.Lhs) != 3 || len(a3.Rhs) != 3 {
+		no("slice: statement 3 is not `start, stop, step := c[0], c[1], c[2]`")
+	}
+	var v3 [3]string
+	for k := 0; k < 3; k++ {
+		v3[k] = ident(a3.Lhs[k])
+		ix, ok := a3.Rhs[k].(*ast.IndexExpr)
+		if !ok || ident(ix.X) != cName {
+			no("slice: statement 3 does not index %s", cName)
+		}
+		lit, ok := ix.Index.(*ast.BasicLit)
+		if !ok || lit.Value != strconv.Itoa(k) {
+			no("slice: statement 3 does not read %s[%d] into its %dth variable", cName, k, k+1)
+		}
+	}
+	// 4. r := []interface{}{}
+	a4, ok := st[3].(*ast.AssignStmt)
+	if !ok || a4.Tok != token.DEFINE || len(a4.Lhs) != 1 || len(a4.Rhs) != 1 {
+		no("slice: statement 4 is not `result := []interface{}{}`")
+	}
+	rName := ident(a4.Lhs[0])
+	if cl, ok := a4.Rhs[0].(*ast.CompositeLit); !ok || len(cl.Elts) != 0 {
+		no("slice: the result does not start as an empty literal")
+	}
+	// 6. return r, nil
+	r6, ok := st[5].(*ast.ReturnStmt)
+	if !ok || len(r6.Results) != 2 || ident(r6.Results[0]) != rName || ident(r6.Results[1]) != "nil" {
+		no("slice: the last statement is not `return %s, nil`", rName)
+	}
+	// 5. if <test> { loop } else { loop }
+	i5, ok := st[4].(*ast.IfStmt)
+	if !ok || i5.Init != nil {
+		no("slice: statement 5 is not an if")
+	}
+	eb, ok := i5.Else.(*ast.BlockStmt)
+	if !ok {
+		no("slice: statement 5 has no else block")
+	}
+	env := map[string]kind{v3[0]: kInt, v3[1]: kInt, v3[2]: kInt}
+	test, tk := t.expr(i5.Cond, env)
+	if tk != kBool {
+		no("slice: the test of statement 5 is not boolean")
+	}
+	loop := func(b *ast.BlockStmt) loopPieces {
+		if len(b.List) != 1 {
+			no("slice: a branch of statement 5 is not a single for loop")
+		}
+		f, ok := b.List[0].(*ast.ForStmt)
+		if !ok || f.Init == nil || f.Cond == nil || f.Post == nil {
+			no("slice: a branch of statement 5 is not a three-clause for loop")
+		}
+		in, ok := f.Init.(*ast.AssignStmt)
+		if !ok || in.Tok != token.DEFINE || len(in.Lhs) != 1 || len(in.Rhs) != 1 || ident(in.Rhs[0]) != v3[0] {
+			no("slice: the loop does not start with `i := %s`", v3[0])
+		}
+		iName := ident(in.Lhs[0])
+		lenv := copyEnv(env)
+		lenv[iName] = kInt
+		cond, ck := t.expr(f.Cond, lenv)
+		if ck != kBool {
+			no("slice: loop condition is not boolean")
+		}
+		po, ok := f.Post.(*ast.AssignStmt)
+		if !ok || len(po.Lhs) != 1 || len(po.Rhs) != 1 || ident(po.Lhs[0]) != iName {
+			no("slice: the post statement does not assign the loop variable")
+		}
+		rhs, rk := t.expr(po.Rhs[0], lenv)
+		if rk != kInt {
+			no("slice: the post statement is not an integer assignment")
+		}
+		var post string
+		switch po.Tok {
+		case token.ASSIGN:
+			post = rhs
+		case token.ADD_ASSIGN:
+			post = fmt.Sprintf("(wrap64 (%s + %s))", leanName(iName), rhs)
+		case token.SUB_ASSIGN:
+			post = fmt.Sprintf("(wrap64 (%s - %s))", leanName(iName), rhs)
+		default:
+			no("slice: post statement operator %s", po.Tok)
+		}
+		if len(f.Body.List) != 2 {
+			no("slice: the loop body is not `append; if guard { break }`")
+		}
+		ap, ok := f.Body.List[0].(*ast.AssignStmt)
+		if !ok || ap.Tok != token.ASSIGN || len(ap.Lhs) != 1 || len(ap.Rhs) != 1 || ident(ap.Lhs[0]) != rName {
+			no("slice: the loop body does not start with `%s = append(%s, …)`", rName, rName)
+		}
+		ac, ok := ap.Rhs[0].(*ast.CallExpr)
+		if !ok || ident(ac.Fun) != "append" || len(ac.Args) != 2 || ident(ac.Args[0]) != rName || ac.Ellipsis != token.NoPos {
+			no("slice: the loop body does not append one element to %s", rName)
+		}
+		ix, ok := ac.Args[1].(*ast.IndexExpr)
+		if !ok || ident(ix.X) != sName {
+			no("slice: the appended element is not %s[…]", sName)
+		}
+		idx, ik := t.expr(ix.Index, lenv)
+		if ik != kInt {
+			no("slice: the subscript is not an integer")
+		}
+		gi, ok := f.Body.List[1].(*ast.IfStmt)
+		if !ok || gi.Init != nil || gi.Else != nil || len(gi.Body.List) != 1 {
+			no("slice: the loop body does not end with `if guard { break }`")
+		}
+		if br, ok := gi.Body.List[0].(*ast.BranchStmt); !ok || br.Tok != token.BREAK || br.Label != nil {
+			no("slice: the guarded statement is not a plain break")
+		}
+		guard, gk := t.expr(gi.Cond, lenv)
+		if gk != kBool {
+			no("slice: the guard is not boolean")
+		}
+		// the loop variable is called i in the output
+		ren := func(x string) string { return x }
+		if iName != "i" {
+			if _, clash := env["i"]; clash {
+				no("slice: a variable named i other than the loop variable")
+			}
+			no("slice: the loop variable is not named i") // keep the output canonical; renaming is not implemented
+		}
+		return loopPieces{ren(cond), ren(idx), ren(guard), ren(post)}
+	}
+	l1, l2 := loop(i5.Body), loop(eb)
+	a, b, c := leanName(v3[0]), leanName(v3[1]), leanName(v3[2])
+	var sb strings.Builder
+	for k, lp := range []loopPieces{l1, l2} {
+		fmt.Fprintf(&sb, "def sliceLoop%d {α : Type} (xs : List α) (%s %s %s : Int) : Nat → Int → Res (List α)\n", k+1, a, b, c)
+		fmt.Fprintf(&sb, "  | 0, i => if %s = true then Slice.hang else .ok []\n", lp.cond)
+		fmt.Fprintf(&sb, "  | fuel + 1, i =>\n    if %s = true then\n      match Slice.getIdx xs %s with\n      | none => Slice.idxPanic\n      | some x =>\n", lp.cond, lp.idx)
+		fmt.Fprintf(&sb, "        if %s = true then .ok [x]\n        else\n          let i := %s\n", lp.guard, lp.post)
+		fmt.Fprintf(&sb, "          match sliceLoop%d xs %s %s %s fuel i with\n          | .ok r => .ok (x :: r)\n          | e => e\n    else .ok []\n\n", k+1, a, b, c)
+	}
+	fmt.Fprintf(&sb, "def slice {α : Type} (fuel : Nat) (xs : List α) (parts : List SliceParam) : Res (List α) :=\n")
+	fmt.Fprintf(&sb, "  match computeSliceParams (xs.length : Int) parts with\n  | .error msg => .err (.other msg)\n  | .ok computed =>\n")
+	fmt.Fprintf(&sb, "    match computed[0]?, computed[1]?, computed[2]? with\n    | some %s, some %s, some %s =>\n", a, b, c)
+	fmt.Fprintf(&sb, "      if %s = true then sliceLoop1 xs %s %s %s fuel %s\n      else sliceLoop2 xs %s %s %s fuel %s\n", test, a, b, c, a, a, b, c, a)
+	fmt.Fprintf(&sb, "    | _, _, _ => .panic \"util.go: computed[k] index out of range\"\n\n")
+	return sb.String(), ""
+}
+
+const fallbackLoops = `def sliceLoop1 {α : Type} (xs : List α) (start stop step : Int) : Nat → Int → Res (List α) :=
+  fun fuel i => Slice.loopUp xs stop step fuel i
+
+def sliceLoop2 {α : Type} (xs : List α) (start stop step : Int) : Nat → Int → Res (List α) :=
+  fun fuel i => Slice.loopDown xs stop step fuel i
+
+def slice {α : Type} (fuel : Nat) (xs : List α) (parts : List SliceParam) : Res (List α) :=
+  match computeSliceParams (xs.length : Int) parts with
+  | .error msg => .err (.other msg)
+  | .ok computed =>
+    match computed[0]?, computed[1]?, computed[2]? with
+    | some start, some stop, some step =>
+      if (decide (step > (0 : Int))) = true then sliceLoop1 xs start stop step fuel start
+      else sliceLoop2 xs start stop step fuel start
+    | _, _, _ => .panic "util.go: computed[k] index out of range"
+
+`
+
 func mustUnquote(s string) string {
 	u, err := strconv.Unquote(s)
 	if err != nil {
@@ -391,6 +649,7 @@ func main() {
 		die("util.go", "%v", err)
 	}
 	t := &tr{fns: map[string]*fn{}, fields: map[string]kind{}}
+	softMode = &t.soft
 	want := []string{"capSlice", "computeSliceParams"}
 	foundStruct := false
 	for _, d := range file.Decls {
@@ -488,6 +747,15 @@ func main() {
 		fmt.Fprintf(&b, "def %s %s : %s :=\n", leanName(w), strings.Join(ps, " "), rt)
 		b.WriteString(t.stmts(f.decl.Body.List, nil, env, "  "))
 		b.WriteString("\n")
+	}
+	loops, why := t.tryLoops(file)
+	if loops == "" {
+		fmt.Fprintf(&b, "/-- the loops of `slice` were not in the shape the translator reads (%s): hand-written loops -/\ndef loopsTranslated : Bool := false\n\n", strings.Replace(why, "-/", "- /", -1))
+		b.WriteString(fallbackLoops)
+		fmt.Fprintf(os.Stderr, "gotolean: loops of slice not translated: %s\n", why)
+	} else {
+		b.WriteString("/-- the two loops of `slice` below are the pattern translation of the Go source -/\ndef loopsTranslated : Bool := true\n\n")
+		b.WriteString(loops)
 	}
 	b.WriteString("end Jmes.GenSlice\n")
 	if err := ioutil.WriteFile(outPath, []byte(b.String()), 0o644); err != nil {
